@@ -19,3 +19,50 @@ def xabbr(cfg, ev):
             if any(k != name for k, g in m) and len(set(g for k, g in m)) > 1:
                 return True
     return False
+
+
+def _collide(a, b):
+    return (a.get("s", 0) != 0 and a.get("s", 0) == b.get("s", 0)) or (len(a.get("l", [])) > 0 and a.get("l") == b.get("l"))
+
+
+def xcontainer(cfg, ev):
+    """One handler with sub-group arguments AND ordinary arguments (they live in two containers, Handler::mSubGroupArgs and
+    Handler::mArguments; definitions are checked and keys are looked up per container):
+    * Define: the recorded result is exactly what per-container checking gives, and that differs from checking all keys
+      of the handler together;
+    * Eval: a typed key (short character, long key or its abbreviation) matches keys of both containers, or matches an
+      argument whose key collides with one of the other container."""
+    if not cfg or not cfg.get("args"):
+        return False
+    args = cfg["args"]
+    issub = [a.get("kind") == "sub" for a in args]
+    if not any(issub) or all(issub):
+        return False
+    n = len(args)
+    if ev.get("e") == "Define":
+        if ev.get("mode") != "handler":
+            return False
+        def define(per_container):
+            stored, res = [], []
+            for k in range(n):
+                if any(_collide(args[k], args[j]) for j in stored if not per_container or issub[j] == issub[k]):
+                    res.append("refused")
+                else:
+                    res.append("ok"); stored.append(k)
+            return res
+        return ev.get("res") == define(True) and define(True) != define(False)
+    if ev.get("e") != "Eval" or ev.get("mode") != "handler":
+        return False
+    clash = {k for k in range(n) for j in range(n) if issub[j] != issub[k] and _collide(args[k], args[j])}
+    abbr = cfg.get("abbr", True)
+    for w in ev.get("argv", []):
+        t = _s(w)
+        m = set()
+        if t.startswith("--") and len(t) > 2:
+            name = t[2:].split("=", 1)[0]
+            m = {k for k in range(n) if args[k].get("l") and (_s(args[k]["l"]) == name or (abbr and _s(args[k]["l"]).startswith(name)))}
+        elif t.startswith("-") and len(t) == 2:
+            m = {k for k in range(n) if args[k].get("s") == ord(t[1])}
+        if m & clash or len({issub[k] for k in m}) > 1:
+            return True
+    return False
